@@ -292,7 +292,11 @@ func Run(r *fw.Run) {
 			l := fw.NewLocal()
 			for _, c := range alnum {
 				ch := string(c)
-				for _, rev := range []string{ch, "x" + ch, ch + "x", "abcdef12345" + ch, ch + "bcdef123456"} {
+				rvs := []string{ch, "x" + ch, ch + "x", "abcdef12345" + ch, ch + "bcdef123456"}
+				if ch == "a" || ch == "Z" || ch == "9" {
+					rvs = append(rvs, strings.Repeat("abcdef0123", 700)+ch) // a 7 KB revision
+				}
+				for _, rev := range rvs {
 					for _, base := range []string{"", "v1.2.3", "v1.2.3-pre", "v2.0.0+incompatible", "v1.2.3-rc.0"} {
 						major := "v1"
 						if semverref.Parse(base).Valid {
